@@ -508,15 +508,13 @@ def _scribble(x):
                 x[k] = 'scribbled'
 
 
-def default_roundtrip(e, inline):
+def default_roundtrip(e, inline, wrap=False):
     """One round trip through the default path (no parser argument); the parser's result is scribbled over afterwards.
     -> (status, text, back/err) like roundtrip()."""
-    from pytezos.michelson.format import micheline_to_michelson
     from pytezos.michelson.parse import michelson_to_micheline
-    try:
-        text = micheline_to_michelson(e, inline=inline)
-    except Exception as ex:  # noqa
-        return 'format-error', None, f'{type(ex).__name__}: {ex}'
+    text, err = fmt(e, inline, wrap)
+    if text is None:
+        return 'format-error', None, err
     try:
         back = michelson_to_micheline(text)
     except Exception as ex:  # noqa
@@ -624,8 +622,16 @@ def _dedupe(e):
     return e
 
 
-def diagnose(e, inline, sort, status, text, back, shared=False):
+def layout_of(text, inline):
+    return 'inline' if inline else ('multi-line' if text and '\n' in text else 'one-line')
+
+
+def diagnose(e, inline, sort, status, text, back, shared=False, wrap=False):
     """Name the class of failure of a judged case."""
+    if wrap and roundtrip(e, inline, shared, wrap=False)[0] == 'ok':
+        return (f'{sort} expression formatted with wrap=True in {layout_of(text, inline)} layout does not parse back although '
+                f'the text formatted without the option does',
+                f'{text!r} -> {status}: {_short(back)}')
     if status == 'differs' and _dedupe(e) != e and back == _dedupe(e):
         return ('annotation token repeated on one primitive is parsed back once',
                 f'{text!r} parses to {_short(back)}')
@@ -635,7 +641,7 @@ def diagnose(e, inline, sort, status, text, back, shared=False):
         return (f'argument `{c["prim"]}` with {what} is printed without parentheses',
                 f'{text!r} parses to {_short(back)}')
     s = _sanitize(e)
-    if s != e and roundtrip(s, inline, shared)[0] == 'ok':
+    if s != e and roundtrip(s, inline, shared, wrap)[0] == 'ok':
         return ('annotation containing % or @ after its first character is split by the lexer',
                 f'{text!r} parses to {_short(back)}')
     if status == 'format-error':
@@ -652,17 +658,29 @@ def _short(x):
         return repr(x)[:600]
 
 
-def check_case(e, inline):
-    """Full verdict for one case through the default code path.  -> (sort, status, text, [(descriptor, detail)])"""
+def check_case(e, inline, wrap=False, variant=False):
+    """Full verdict for one case through the default code path (and, for a recorded parser-variant case, through a parser
+    constructed with extra_primitives).  -> (sort, status, text, [(descriptor, detail)])"""
     sort = G.root_sort(e)
-    status, text, back = roundtrip(e, inline)
-    if sort is None or status == 'ok':
+    status, text, back = roundtrip(e, inline, wrap=wrap)
+    if sort is None:
         return sort, status, text, []
-    d, detail = diagnose(e, inline, sort, status, text, back)
-    return sort, status, text, [(d, f'inline={inline} expr={_short(e)} :: {detail}')]
+    if status != 'ok':
+        d, detail = diagnose(e, inline, sort, status, text, back, wrap=wrap)
+        return sort, status, text, [(d, f'inline={inline} wrap={wrap} expr={_short(e)} :: {detail}')]
+    if variant:
+        st2, back2 = parse_back(e, text, 'extra')
+        if st2 != 'ok':
+            return sort, st2, text, [(variant_descriptor(sort), f'inline={inline} wrap={wrap} expr={_short(e)} :: {text!r} -> {st2}: {_short(back2)}')]
+    return sort, status, text, []
 
 
-def judge_history_failure(e, inline, sort, status, text, back):
+def variant_descriptor(sort):
+    return (f'MichelsonParser(extra_primitives=[words that do not occur]).parse does not give back the {sort} expression '
+            f'although the default parser does')
+
+
+def judge_history_failure(e, inline, sort, status, text, back, wrap=False):
     """A default-path round trip failed in the middle of a sequence.  If the very same expression round-trips through an
     explicitly constructed parser the failure is one of history, otherwise it is classified like any other."""
     from pytezos.michelson.parse import MichelsonParser, michelson_to_micheline
@@ -675,28 +693,34 @@ def judge_history_failure(e, inline, sort, status, text, back):
             return [(f'default-parser round trip of a {sort} expression fails after earlier calls in the same process '
                      f'(the same text parses back correctly with an explicitly constructed parser)',
                      f'{text!r} -> {status}: {_short(back)}')]
-    return [diagnose(e, inline, sort, status, text, back)]
+    return [diagnose(e, inline, sort, status, text, back, wrap=wrap)]
+
+
+def _call(c):
+    """A recorded call [expr, inline] or [expr, inline, wrap]."""
+    return c[0], bool(c[1]), bool(c[2]) if len(c) > 2 else False
 
 
 def run_history(case):
     """Replay of a recorded history case: the recorded earlier calls, then the call itself."""
-    for e, inline in case.get('history', []):
-        default_roundtrip(e, bool(inline))
-    e, inline = case['expr'], bool(case['inline'])
+    for c in case.get('history', []):
+        default_roundtrip(*_call(c))
+    e, inline, wrap = case['expr'], bool(case['inline']), bool(case.get('wrap', False))
     sort = G.root_sort(e)
-    status, text, back = default_roundtrip(e, inline)
+    status, text, back = default_roundtrip(e, inline, wrap)
     if sort is None or status == 'ok':
         return []
-    return [(d, f'after {len(case.get("history", []))} earlier calls: inline={inline} expr={_short(e)} :: {detail}')
-            for d, detail in judge_history_failure(e, inline, sort, status, text, back)]
+    return [(d, f'after {len(case.get("history", []))} earlier calls: inline={inline} wrap={wrap} expr={_short(e)} :: {detail}')
+            for d, detail in judge_history_failure(e, inline, sort, status, text, back, wrap)]
 
 
 class Shard:
-    def __init__(self):
+    def __init__(self, variants=False):
         self.r = Result()
         self.n = 0
         self.confirmed = 0
         self.last = None
+        self.variants = variants        # also parse every text with the extra_primitives parser
 
     def case(self, e, family):
         r = self.r
@@ -705,35 +729,60 @@ class Shard:
         for p, pos in prims:
             r.extra[f'~{"j" if sort else "u"}:{p}:{pos}'] += 1
         for inline in (True, False):
-            self.n += 1
-            r.ev()
-            status, text, back = roundtrip(e, inline, shared=True)
-            sort_fail = sort is not None and status != 'ok'
-            if (sort_fail and self.confirmed < 25) or self.n % 200 == 0:
-                self.confirmed += sort_fail
-                st2, text2, back2 = roundtrip(e, inline)
-                r.extra['default_path_reruns'] += 1
-                if (st2, text2) != (status, text) or (st2 == 'differs' and back2 != back):
-                    raise RuntimeError(f'shared parser disagrees with fresh parser on {e!r}: {status} vs {st2}')
-            layout = 'inline' if inline else ('multi-line' if text and '\n' in text else 'one-line')
-            case = {'expr': e, 'inline': inline}
-            self.last = case
-            if sort is None:
-                r.no_verdict += 1
-                r.out(f'outside statement / {layout} / {status}')
-                continue
-            r.out(f'{sort} / {layout} / {status}')
-            if feats or layout == 'multi-line':
-                r.nt((json.dumps(e, sort_keys=True), inline))
-                for f in feats:
-                    r.extra[f'feature:{f}'] += 1
-                if layout == 'multi-line':
-                    r.extra['feature:multi-line layout'] += 1
-            if status != 'ok':
-                d, detail = diagnose(e, inline, sort, status, text, back, shared=True)
-                r.viol(d, case, f'[{family}] inline={inline} expr={_short(e)} :: {detail}')
-            if len(r.samples) < 1 or (self.n % 9973 == 0 and len(r.samples) < 3):
-                r.sample(case)
+            plain = fmt(e, inline, False)[0]
+            for wrap in (False, True):
+                if wrap:
+                    # the option is crossed with every case; where it leaves the text as it is (the parser being a function
+                    # of the text) the unwrapped evaluation already is the verdict
+                    wtext, werr = fmt(e, inline, True)
+                    if werr is None and wtext == plain:
+                        r.extra['wrap=True leaves the text unchanged (verdict shared with wrap=False)'] += 1
+                        continue
+                self.one(e, inline, wrap, sort, feats, family)
+
+    def one(self, e, inline, wrap, sort, feats, family):
+        r = self.r
+        self.n += 1
+        r.ev()
+        status, text, back = roundtrip(e, inline, shared=True, wrap=wrap)
+        sort_fail = sort is not None and status != 'ok'
+        if (sort_fail and self.confirmed < 25) or self.n % 200 == 0:
+            self.confirmed += sort_fail
+            st2, text2, back2 = roundtrip(e, inline, wrap=wrap)
+            r.extra['default_path_reruns'] += 1
+            if (st2, text2) != (status, text) or (st2 == 'differs' and back2 != back):
+                raise RuntimeError(f'shared parser disagrees with fresh parser on {e!r}: {status} vs {st2}')
+        layout = layout_of(text, inline) + (' wrapped' if wrap else '')
+        case = {'expr': e, 'inline': inline, 'wrap': wrap}
+        self.last = case
+        vstatus = vback = None
+        if self.variants and text is not None:
+            r.extra['texts_also_parsed_with_extra_primitives_parser'] += 1
+            vstatus, vback = parse_back(e, text, 'extra')
+        if sort is None:
+            r.no_verdict += 1
+            r.out(f'outside statement / {layout} / {status}')
+            return
+        r.out(f'{sort} / {layout} / {status}')
+        if vstatus is not None:
+            r.out(f'{sort} / extra_primitives parser / {vstatus}')
+        multi = text is not None and not inline and '\n' in text
+        if feats or multi or wrap:
+            r.nt((json.dumps(e, sort_keys=True), inline, wrap))
+            for f in feats:
+                r.extra[f'feature:{f}'] += 1
+            if multi:
+                r.extra['feature:multi-line layout'] += 1
+            if wrap:
+                r.extra['feature:wrap=True changes the text' + (' and the layout is multi-line' if multi else '')] += 1
+        if status != 'ok':
+            d, detail = diagnose(e, inline, sort, status, text, back, shared=True, wrap=wrap)
+            r.viol(d, case, f'[{family}] inline={inline} wrap={wrap} expr={_short(e)} :: {detail}')
+        elif vstatus not in (None, 'ok'):
+            r.viol(variant_descriptor(sort), dict(case, variant=True),
+                   f'[{family}] inline={inline} wrap={wrap} expr={_short(e)} :: {text!r} -> {vstatus}: {_short(vback)}')
+        if len(r.samples) < 1 or (self.n % 9973 == 0 and len(r.samples) < 3):
+            r.sample(case)
 
     def both(self, chain, form, family):
         short = apply_chain(chain, form, False)
@@ -746,29 +795,37 @@ class Shard:
         """seq: expressions.  Every (expression, layout) through the default path, in order and then in reverse order, inside
         this process; each call is judged on its own."""
         r = self.r
-        calls = [(e, inline) for e in seq for inline in (True, False)]
+        calls = []
+        for e in seq:
+            for inline in (True, False):
+                calls.append((e, inline, False))
+                wtext, werr = fmt(e, inline, True)
+                if werr is not None or wtext != fmt(e, inline, False)[0]:
+                    calls.append((e, inline, True))       # wrap=True gives another text: another call of the history
         sorts = {id(e): G.root_sort(e) for e in seq}
         keys = {id(e): json.dumps(e, sort_keys=True) for e in seq}
         done = []
         r.extra['history_sequences'] += 1
-        for e, inline in calls + calls[::-1]:
+        for e, inline, wrap in calls + calls[::-1]:
             r.ev()
             r.extra['history_calls_through_default_parser'] += 1
             sort = sorts[id(e)]
-            status, text, back = default_roundtrip(e, inline)
-            case = {'expr': e, 'inline': inline}
+            status, text, back = default_roundtrip(e, inline, wrap)
+            case = {'expr': e, 'inline': inline, 'wrap': wrap}
             self.last = case
             if sort is None:
                 r.no_verdict += 1
                 r.out(f'history / outside statement / {status}')
             else:
                 r.out(f'history / {sort} / {status}')
-                r.nt((keys[id(e)], inline))
+                r.nt((keys[id(e)], inline, wrap))
+                if wrap:
+                    r.extra['history_calls_with_wrap=True'] += 1
                 if status != 'ok':
-                    for d, detail in judge_history_failure(e, inline, sort, status, text, back):
+                    for d, detail in judge_history_failure(e, inline, sort, status, text, back, wrap):
                         r.viol(d, dict(case, history=list(done)),
-                               f'[H:{name}] call {len(done) + 1} of the sequence: inline={inline} expr={_short(e)} :: {detail}')
-            done.append([e, inline])
+                               f'[H:{name}] call {len(done) + 1} of the sequence: inline={inline} wrap={wrap} expr={_short(e)} :: {detail}')
+            done.append([e, inline, wrap])
 
     def done(self):
         if self.last is not None:
@@ -820,6 +877,13 @@ def history_sequences(tier):
     seqs.append(('code and scripts', forms_C() + forms_X()))
     seqs.append(('short and long version of one form', [x for f in forms_D() + forms_C() for x in (f, lengthen(f))]))
     seqs.append(('same word up to case', _same_word_forms()))
+    # the same datum below every data host, short and long: with the formatting options crossed in by history() these are
+    # the four texts of one expression (plain / wrapped x inline / laid out) next to those of its neighbours
+    small = [I(-1), S('a"b'), B('00'), P('Unit'), P('Some', I(1)), P('Pair', I(1), S('a')), [], [I(1), I(2)], [[]],
+             P('Lambda_rec', [P('DROP')]), [P('Elt', I(1), P('Left', S('\\')))]]
+    dd = [c for c in chains('D', 1) if HOSTS[c[0]][2] == 'D']
+    seqs.append(('one datum below every data host, short and long',
+                 [apply_chain(c, lengthen(f) if L else f, L) for f in small for c in dd for L in (False, True)]))
     return seqs
 
 
@@ -883,7 +947,7 @@ def shards(tier, seed):
 
 def run_shard(spec, tier):
     fam, sort, depth, annset, reduced, i, k = spec
-    sh = Shard()
+    sh = Shard(variants=(fam == 'A' and depth <= 1) or fam == 'L')
     if fam == 'A':
         forms = _forms(sort, tier, annset, reduced)
         for chain in chains(sort, depth)[i::k]:
@@ -967,12 +1031,13 @@ def finalize(res, tier):
 def replay(case):
     if 'history' in case:
         return run_history(case)
-    return check_case(case['expr'], bool(case['inline']))[3]
+    return check_case(case['expr'], bool(case['inline']), bool(case.get('wrap', False)), bool(case.get('variant', False)))[3]
 
 
 def observe(case):
     out = []
     for inline in (True, False):
-        st, text, back = roundtrip(case['expr'], inline)
-        out.append([st, text, _short(back) if back is not None else None])
+        for wrap in (False, True):
+            st, text, back = roundtrip(case['expr'], inline, wrap=wrap)
+            out.append([st, text, _short(back) if back is not None else None])
     return out
